@@ -269,6 +269,27 @@ def op_rewrite_prior(ctx, runname, compl, prefix='aifeyn_', mode='reverse'):
     ctx.comm.Barrier()
 
 
+def op_rewrite_data(ctx, path):
+    """Harness op (not ESR code): between two barriers rank 0 puts a NaN measurement into a data file - the data of a run
+    name change between two runs (a corrupted measurement); every function then ends with a NaN description length."""
+    ctx.comm.Barrier()
+    if ctx.rank == 0:
+        on = ctx.fs_state['on']
+        ctx.fs_state['on'] = False
+        try:
+            p = ctx.scratch + '/' + path
+            with open(p) as f:
+                lines = f.read().splitlines()
+            parts = lines[0].split()
+            parts[1] = 'nan'
+            lines[0] = ' '.join(parts)
+            with open(p, 'w') as f:
+                f.write('\n'.join(lines) + '\n')
+        finally:
+            ctx.fs_state['on'] = on
+    ctx.comm.Barrier()
+
+
 def op_barrier(ctx):
     ctx.comm.Barrier()
 
@@ -280,7 +301,7 @@ def op_check_results(ctx, runname, compl, **kw):
 
 
 OPS = dict(gen=op_gen, npseed=op_npseed, like=op_like, fit=op_fit, load_subs=op_load_subs,
-           slices=op_slices, simp_inv=op_simp_inv, subs_templates=op_subs_templates, snapshot=op_snapshot, victim=op_victim, rewrite_prior=op_rewrite_prior, barrier=op_barrier, check_results=op_check_results)
+           slices=op_slices, simp_inv=op_simp_inv, subs_templates=op_subs_templates, snapshot=op_snapshot, victim=op_victim, rewrite_prior=op_rewrite_prior, rewrite_data=op_rewrite_data, barrier=op_barrier, check_results=op_check_results)
 
 
 def run_program(program, rank, size, scratch, report, comm, fs_state=None, op_plans=None):
